@@ -550,6 +550,43 @@ class SymInt(SymReal):
         return self // (2 ** int(o))
 
 
+class SymUInt(SymInt):
+    """a numpy unsigned 64-bit scalar with a symbolic value (np.uint(x)).  Only the promotion rule that matters for rpylib is
+    modelled: since numpy 2 (NEP 50) a python integer operand must itself be representable in uint64, so `(-5) + np.uint64(k)`
+    raises OverflowError whatever k is.  Results of arithmetic are plain integer terms (wrap-around of the result is not modelled)."""
+
+    __slots__ = ()
+
+    @staticmethod
+    def _guard(o):
+        if type(o) is int and not (0 <= o < 2**64):
+            raise OverflowError(f"Python integer {o} out of bounds for uint64")
+
+    def __add__(self, o):
+        self._guard(o)
+        return SymInt.__add__(self, o)
+
+    def __radd__(self, o):
+        self._guard(o)
+        return SymInt.__radd__(self, o)
+
+    def __sub__(self, o):
+        self._guard(o)
+        return SymInt.__sub__(self, o)
+
+    def __rsub__(self, o):
+        self._guard(o)
+        return SymInt.__rsub__(self, o)
+
+    def __mul__(self, o):
+        self._guard(o)
+        return SymInt.__mul__(self, o)
+
+    def __rmul__(self, o):
+        self._guard(o)
+        return SymInt.__rmul__(self, o)
+
+
 numbers.Real.register(SymReal)
 numbers.Integral.register(SymInt)
 
